@@ -62,6 +62,7 @@ def main():
     wt = "/tmp/mut-%s" % pid
     only = None
     tag = ""
+    base = None  # revision of /repo the change is evaluated on (default: current HEAD)
     a = sys.argv[2:]
     while a:
         if a[0] == "--wt":
@@ -70,12 +71,15 @@ def main():
             only = a[1]; a = a[2:]
         elif a[0] == "--tag":
             tag = a[1] + "-"; a = a[2:]
+        elif a[0] == "--base":
+            base = a[1]; a = a[2:]
         else:
             a = a[1:]
     target = os.path.join(wt, "target")
     mdir = os.path.join(wt, "mutations")
     # evaluate against the repository's current HEAD (fixes committed since the change was authored included)
-    sh("git checkout -- . && git checkout -q --detach $(git -C /repo rev-parse HEAD)", wt)
+    sh("git checkout -- . && git checkout -q --detach %s" % (base or "$(git -C /repo rev-parse HEAD)"), wt)
+    rc, rev, _ = sh("git rev-parse --short HEAD", wt)
     results = []
     for k in sorted(os.listdir(mdir)):
         d = os.path.join(mdir, k)
@@ -137,16 +141,32 @@ def main():
         if confirmed:
             dest = os.path.join(VERIF, "seeded", "%s-%s%s" % (pid, tag, k))
             os.makedirs(dest, exist_ok=True)
+            prev_run = None
+            try:
+                prev_run = json.load(open(os.path.join(dest, "meta.json"))).get("what_i_ran")
+            except Exception:
+                pass
             for f in os.listdir(d):
                 if os.path.isfile(os.path.join(d, f)):
                     shutil.copy(os.path.join(d, f), os.path.join(dest, f))
             meta["what_i_ran"] = {
+                "repo_revision": rev.strip(),
                 "clean_tree_demo": "%s -> exit %d" % (demo, rc0),
                 "changed_tree_demo": "%s -> exit %d" % (demo, rc1),
                 "existing_tests_with_change": tests,
                 "check": "./check %s --tier quick on the changed tree -> exit %s; signatures %s" % (pid, rec.get("check_rc"), rec.get("check_signatures")),
                 "caught_by_check": rec.get("caught"),
             }
+            # keep the history: a change missed by an earlier version of the check stays marked as such
+            if prev_run:
+                if prev_run.get("after_strengthening") or (prev_run.get("caught_by_check") is False):
+                    meta["what_i_ran"]["first_check"] = prev_run.get("first_check") or prev_run.get("check")
+                    if rec.get("caught"):
+                        meta["what_i_ran"]["after_strengthening"] = True
+                        meta["what_i_ran"]["check_signatures_after_strengthening"] = rec.get("check_signatures")
+                for k in ("caught_by_other_check", "note"):
+                    if k in prev_run:
+                        meta["what_i_ran"][k] = prev_run[k]
             json.dump(meta, open(os.path.join(dest, "meta.json"), "w"), indent=1)
         results.append(rec)
         print(json.dumps(rec), flush=True)
